@@ -39,6 +39,18 @@ def install():
             STUB["titration_log"] = list(pipeline._CAP.records[mark:]) if pipeline._CAP else []
 
     Biomolecule.apply_pka_values = apply_pka_values
+    # --ffout rewrites atom names after everything is decided: keep the canonical names for the state observer
+    if not getattr(Biomolecule.apply_name_scheme, "_vf_records_names", False):
+        orig_ans = Biomolecule.apply_name_scheme
+
+        def apply_name_scheme(self, forcefield_):
+            for atom in self.atoms:
+                if not hasattr(atom, "_vf_name"):
+                    atom._vf_name = atom.name
+            return orig_ans(self, forcefield_)
+
+        apply_name_scheme._vf_records_names = True
+        Biomolecule.apply_name_scheme = apply_name_scheme
     STUB["installed"] = True
 
 
